@@ -115,6 +115,11 @@ def _beta(n):
         return n
     n = {k: _beta(v) if isinstance(v, (dict, list)) else v for k, v in n.items()}
     lam, args = None, None
+    if n.get('k') == 'call' and not n.get('callee') and SX.is_node(n.get('calleeExpr')) and SX.strip(n['calleeExpr']).get('k') == 'ref' \
+            and SX.strip(n['calleeExpr']).get('kind') == 'var' and '(lambda' in (SX.strip(n['calleeExpr']).get('t') or ''):
+        # a dependent call through a local closure variable (written inside a generic lambda): the ordinary closure-call form
+        return {'k': 'opcall', 'op': '()', 'callee': '', 'args': [SX.strip(n['calleeExpr'])] + list(n.get('args', [])), 'ln': n.get('ln'), 'col': n.get('col'),
+                't': n.get('t'), 'member': True}
     if n.get('k') == 'call' and not n.get('callee') and SX.is_node(n.get('calleeExpr')) and SX.strip(n['calleeExpr']).get('k') == 'lambda':
         lam, args = SX.strip(n['calleeExpr']), n.get('args', [])
     elif n.get('k') == 'opcall' and n.get('op') == '()' and n.get('args') and SX.is_node(SX.strip(n['args'][0])) and SX.strip(n['args'][0]).get('k') == 'lambda':
@@ -159,6 +164,22 @@ class _Inliner:
     def closure_callee(self, e, stack):
         """a call of a local closure that takes a closure literal (`arithmetic([](auto a, auto b) { return a + b; })`): such
         higher-order local closures are expanded like new helpers, the literal is substituted and applied (beta reduction)"""
+        if self.only is not None and SX.is_node(e) and ((e.get('k') == 'call' and not e.get('callee') and SX.is_node(e.get('calleeExpr')) and SX.strip(e['calleeExpr']).get('k') == 'lambda') or
+                                                        (e.get('k') == 'opcall' and e.get('op') == '()' and e.get('args') and SX.strip(e['args'][0]).get('k') == 'lambda')):
+            # a closure literal applied on the spot (what remains of `fn(v)` once a higher-order helper was expanded with fn := literal)
+            lam = SX.strip(e['calleeExpr']) if e.get('k') == 'call' else SX.strip(e['args'][0])
+            nargs = len(e.get('args', [])) - (1 if e.get('k') == 'opcall' else 0)
+            body = lam.get('body')
+            if SX.is_node(body) and body.get('k') == 'block' and len(lam.get('params', [])) == nargs and not any(n['k'] == 'lambda' for n in SX.walk(body)):
+                self.serial += 1
+                h = _Pseudo('literal:%d:%s' % (self.serial, self.f.key), '%s::<closure literal@%s>' % (self.f.name, lam.get('ln')), lam.get('params', []), body, self.f)
+                rets = [n for n in SX.walk(body, into_lambdas=False) if n['k'] == 'return']
+                h.ret = 'auto' if any(r.get('e') is not None for r in rets) else 'void'
+                bl = body.get('body')
+                self._early[h.key] = bool(rets) and not (len(rets) == 1 and bl and bl[-1] is rets[0])
+                h.literal_call = True
+                return h
+            return None
         if not (SX.is_node(e) and e.get('k') == 'opcall' and e.get('op') == '()' and e.get('args')):
             return None
         c = SX.strip(e['args'][0])
@@ -187,7 +208,7 @@ class _Inliner:
         return h
 
     def callee(self, e, stack):
-        if not (SX.is_node(e) and e.get('k') in ('call', 'mcall')):
+        if not (SX.is_node(e) and e.get('k') in ('call', 'mcall')) or (e.get('k') == 'call' and not e.get('callee')):
             return self.closure_callee(e, stack)
         if e['k'] == 'mcall':
             o = SX.strip(e.get('obj'))
@@ -225,6 +246,8 @@ class _Inliner:
     def expand(self, call, h, stack, pure_only=False, tail=False):
         """(prefix statements, returned expression or None) for one call of h, or None when the call cannot be inlined"""
         args = _all_args(call) if call.get('k') != 'opcall' else list(call['args'][1:])
+        if getattr(h, 'literal_call', False) and call.get('k') == 'call':
+            args = list(call.get('args', []))
         self.serial += 1
         tag = '@%d' % self.serial
         idmap = {i: i + tag for i in _locals_of(h)}
